@@ -118,9 +118,16 @@ WellFormed(v) ==
     /\ (v.g > 0 /\ v.s = "none" => v.g < NTok(v.b) /\ Base[v.b].tight[v.g])
     /\ v.lead \in BOOLEAN
 
+\* built constructively (a filter over the full record space is slow in TLC)
+TokEdits(b) == {<<0, 1>>} \cup UNION {{<<p, a>> : a \in 2..Len(Base[b].toks[p])} : p \in 1..NTok(b)}
+GapEdits(b) ==
+    {<<0, "sp">>} \cup
+    {gs \in Base[b].gaps \X SepKinds :
+        /\ gs[2] # DefaultSep(b, gs[1])
+        /\ gs[2] = "none" => (gs[1] < NTok(b) /\ Base[b].tight[gs[1]])}
 VariantsOf(b) ==
-    {v \in [b : {b}, p : 0..NTok(b), a : 1..8, g : 0..NTok(b), s : SepKinds, lead : BOOLEAN] :
-        WellFormed(v) /\ (v.g > 0 => v.s # DefaultSep(b, v.g))}
+    {[b |-> b, p |-> pa[1], a |-> pa[2], g |-> gs[1], s |-> gs[2], lead |-> ld] :
+        pa \in TokEdits(b), gs \in GapEdits(b), ld \in BOOLEAN}
 \* single edits only (one spelling edit or one separator edit or leading blanks)
 Single(v) == (IF v.p > 0 THEN 1 ELSE 0) + (IF v.g > 0 THEN 1 ELSE 0) + (IF v.lead THEN 1 ELSE 0) <= 1
 PlainOf(b) == [b |-> b, p |-> 0, a |-> 1, g |-> 0, s |-> "sp", lead |-> FALSE]
